@@ -62,7 +62,7 @@ pub fn run(args: &[String]) {
             let time_ev = rng.chance(0.5);
             let mut b = vec![0.0; n];
             let (a, c) = if time_ev { (1.0, x0 + (xend - x0) * rng.range(0.1, 0.95)) } else { b[rng.below(n)] = 1.0; (0.0, p.y0()[0] * rng.range(0.3, 0.95)) };
-            p.events.push(EventSpec { a, b, c, dir: [-1, 0, 0, 1][rng.below(4)], terminal: if rng.chance(0.3) { Some(1) } else { None } });
+            p.events.push(EventSpec { a, b, c, dir: [-1, 0, 0, 1][rng.below(4)], terminal: if rng.chance(0.3) { Some(if id % 4 == 3 { 2 } else { 1 }) } else { None } });
         }
         if multi {
             let mut b = vec![0.0; n];
@@ -84,7 +84,7 @@ pub fn run(args: &[String]) {
         let avec: Option<Vec<f64>> = if tolform >= 2 { tol.map(|t| (0..n).map(|i| t.1 * (1.0 + i as f64)).collect()) } else { None };
         // --- the case, for Python
         let evs = if nev == 0 { "null".to_string() } else {
-            format!("[{}]", p.events.iter().map(|e| format!("{{\"a\":{},\"b\":{},\"c\":{},\"dir\":{},\"pydir\":{},\"terminal\":{}}}", hq(e.a), hql(&e.b), hq(e.c), e.dir, (e.dir as f64) * [1.0, 0.5, 3.0, 0.25][(id + e.dir.unsigned_abs() as usize + e.b.len()) % 4], e.terminal.is_some())).collect::<Vec<_>>().join(","))
+            format!("[{}]", p.events.iter().map(|e| format!("{{\"a\":{},\"b\":{},\"c\":{},\"dir\":{},\"pydir\":{},\"terminal\":{},\"tform\":{}}}", hq(e.a), hql(&e.b), hq(e.c), e.dir, (e.dir as f64) * [1.0, 0.5, 3.0, 0.25][(id + e.dir.unsigned_abs() as usize + e.b.len()) % 4], e.terminal.unwrap_or(0), id / 2 + e.b.len())).collect::<Vec<_>>().join(","))
         };
         writeln!(cf, "{{\"type\":\"solve\",\"id\":{},\"kind\":\"{:?}\",\"method\":{},\"x0\":{},\"xend\":{},\"rtol\":{},\"atol\":{},\"rtol_vec\":{},\"atol_vec\":{},\"first_step\":{},\"max_step\":{},\"max_steps\":{},\"t_eval\":{},\"dense\":{},\"events\":{},\"events_as_list\":{},\"jac\":\"{}\",\"args\":{},\"queries\":{},\"scalar_query\":{}}}",
             id, kind, pyname.map(|s| format!("\"{s}\"")).unwrap_or("null".into()), hq(x0), hq(xend), opt(tol.map(|t| t.0)), opt(tol.map(|t| t.1)), rvec.as_ref().map(|v| hql(v)).unwrap_or("null".into()), avec.as_ref().map(|v| hql(v)).unwrap_or("null".into()), opt(first), opt(maxstep),
